@@ -1055,17 +1055,34 @@ impl InferContext {
 
     /// Resolve type aliases recursively
     pub fn resolve_type_alias(&self, type_id: TypeNodeId) -> TypeNodeId {
+        self.resolve_type_alias_within(type_id, &mut Vec::new())
+    }
+
+    /// `expanding` holds the aliases whose definitions are being expanded: an alias that
+    /// (directly or through others) refers to itself is left as it is instead of being
+    /// expanded for ever (the cycle itself is reported by `check_type_alias_cycles`).
+    fn resolve_type_alias_within(
+        &self,
+        type_id: TypeNodeId,
+        expanding: &mut Vec<Symbol>,
+    ) -> TypeNodeId {
         match type_id.to_type() {
             Type::TypeAlias(alias_name) => {
                 let resolved_alias_name = self.resolve_type_alias_symbol_fallback(alias_name);
+                if expanding.contains(&resolved_alias_name) {
+                    return type_id;
+                }
                 if let Some(resolved_type) = self.type_aliases.get(&resolved_alias_name) {
                     // Recursively resolve in case the alias points to another alias
-                    self.resolve_type_alias(*resolved_type)
+                    expanding.push(resolved_alias_name);
+                    let resolved = self.resolve_type_alias_within(*resolved_type, expanding);
+                    expanding.pop();
+                    resolved
                 } else {
                     type_id // Return original if not found (shouldn't happen)
                 }
             }
-            _ => type_id.apply_fn(|t| self.resolve_type_alias(t)),
+            _ => type_id.apply_fn(|t| self.resolve_type_alias_within(t, expanding)),
         }
     }
 }
@@ -1668,6 +1685,18 @@ impl InferContext {
                 match self.lookup(resolved_name, loc.clone()) {
                     Ok(resolved_ty) => {
                         let resolved_ty = self.resolve_type_alias(resolved_ty);
+                        // An alias that is still there although it has a definition is part of
+                        // a cycle (reported by `check_type_alias_cycles`): converting it again
+                        // would never end.
+                        let cyclic = Self::find_type_aliases_in_type(resolved_ty)
+                            .into_iter()
+                            .any(|alias| {
+                                let alias = self.resolve_type_alias_symbol_fallback(alias);
+                                self.type_aliases.contains_key(&alias)
+                            });
+                        if cyclic {
+                            return self.gen_intermediate_type_with_location(loc.clone());
+                        }
                         let resolved_ty =
                             self.convert_unknown_to_intermediate(resolved_ty, loc.clone());
                         log::trace!(
